@@ -195,6 +195,14 @@ def run(tier):
                 "0x8000000000000000", "0xFFFFFFFFFFFFFFFF", "0Xffffffffffffffff", "0x00000000000000001"):
         valid += ["return %s" % num, "local x = %s" % num, "return -%s" % num, "return %s + 1" % num, "t = {[%s] = %s}" % (num, num), "return %s .. ''" % num,
                   "if x == %s then end" % num, "for i = %s, %s do end" % (num, num)]
+    # empty loops (a jump to itself) in every position another jump can land on
+    loops = ["while true do end", "while 1 do end", "repeat until false", "repeat until nil", "while true do local q end", "repeat local q until false",
+             "while x do end", "repeat until x", "for i = 1, 2 do end", "::l:: goto l"]
+    ctxs = ["%s", "if x then y = 1 else %s end", "if a or b then %s end", "if a and b then %s end", "local ok = x or y; %s", "local ok = x and y; %s", "if x then %s else %s end",
+            "while x do %s end", "do %s end", "if x then y = 1 end %s", "function f() %s end", "for i = 1, 3 do if x then break end %s end", "if x then elseif y then %s else %s end",
+            "repeat %s until x", "if not x then %s end", "while x do if y then %s end end", "local function g() if x then return end %s end", "if x then return end %s"]
+    for l1, c1 in itertools.product(loops, ctxs):
+        valid.append(c1.replace("%s", l1) if "::l::" not in l1 or c1.count("%s") == 1 else c1.replace("%s", "while true do end"))
     nvalid0 = len(cases)
     cases += [v.encode() for v in valid]
     rob = load_all(list(enumerate(cases, 1)), "rob", timeout=2400)
